@@ -3,12 +3,13 @@
 
    The theorems speak about the model of Model.v for ALL configurations (any number of classes and
    objects, any trait tables, chains of any length below the 100-step limit), all values and all
-   histories.  Two hypotheses exclude the two recorded findings, whose witnesses are proved below:
-     same_prefix          (one __prefix__ for all classes; otherwise a '*'-style hop after the first
-                           is named with the assigning object's prefix when writing)
-     no_deferring_locals  (no deferring attribute on the chain holds a local value; otherwise a
-                           DelegatesTo assignment is stored past it);
-   and listenable / all_listenable exclude the third one (del of a listenable=False attribute). *)
+   histories.  One hypothesis excludes the one remaining recorded finding, whose witness is proved below:
+     no_deferring_locals / good_chain  (no deferring attribute on the chain holds a local value;
+                                        otherwise a DelegatesTo assignment is stored past it).
+   The two findings repaired in /repo (2e526b5: every link of a chain is named from the object that owns
+   it; fcaa594: del of a listenable=False attribute is an ordinary delete) no longer need a hypothesis:
+   [same_prefix] and the [listenable] premise of delete_restores_link are gone, and the former witnesses
+   are now positive examples. *)
 From Coq Require Import ZArith List Bool Arith.
 From TV Require Import Common.Harness C11.Model C11.Law C11.Proofs C11.Invariants C11.Chain C11.Invariants2.
 Import ListNotations.
@@ -26,27 +27,27 @@ Print Assumptions attr_name_table.
 (* the chain walk is total (structural recursion on the 100-step budget), returns a node that does
    not defer again, and its answer does not depend on budget left over *)
 Theorem chain_terminates_or_errors :
-  forall st origin f cur d r dn,
-    (forall x, walk f st origin cur d r dn = Ok x -> forall k, walk (f + k) st origin cur d r dn = Ok x) /\
-    (forall p t tr, walk f st origin cur d r dn = Ok (p, t, tr) ->
+  forall st f cur d r dn,
+    (forall x, walk f st cur d r dn = Ok x -> forall k, walk (f + k) st cur d r dn = Ok x) /\
+    (forall p t tr, walk f st cur d r dn = Ok (p, t, tr) ->
        (match tr with Deleg _ _ _ => False | _ => True end) /\
        forall d' r' m', find_trait st p t <> Some (Deleg d' r' m')).
 Proof.
-  intros st origin f cur d r dn. split.
-  - intros x H. exact (walk_fuel_mono st origin f cur d r dn x H).
+  intros st f cur d r dn. split.
+  - intros x H. exact (walk_fuel_mono st f cur d r dn x H).
   - intros p t tr H. split.
-    + exact (walk_terminal st origin f cur d r dn p t tr H).
-    + exact (walk_result st origin f cur d r dn p t tr H).
+    + exact (walk_terminal st f cur d r dn p t tr H).
+    + exact (walk_result st f cur d r dn p t tr H).
 Qed.
 Print Assumptions chain_terminates_or_errors.
 
 (* a deferring attribute reads as the attribute at the end of its chain: the very node an assignment
    through it addresses *)
 Theorem delegatesto_reads_target :
-  forall st origin, links_are_links st -> same_prefix st -> no_deferring_locals st ->
+  forall st, links_are_links st -> no_deferring_locals st ->
   forall f cur d r m dn p t tr,
     find_trait st cur dn = Some (Deleg d r m) ->
-    walk f st origin cur d r dn = Ok (p, t, tr) ->
+    walk f st cur d r dn = Ok (p, t, tr) ->
     (match find_trait st p t with Some (Deleg _ _ _) => False | _ => True end) /\
     forall g, read (f + S g) st cur dn = read (S g) st p t.
 Proof. exact walk_read_agree. Qed.
@@ -55,9 +56,9 @@ Print Assumptions delegatesto_reads_target.
 (* DelegatesTo: one dict store, at the end of the chain, in the delegate - and it is read back *)
 Theorem delegatesto_writes_delegate_only :
   forall st o n d r p t k dflt v w,
-  links_are_links st -> same_prefix st -> no_deferring_locals st ->
+  links_are_links st -> no_deferring_locals st ->
   find_trait st o n = Some (Deleg d r true) ->
-  walk 100 st o o d r n = Ok (p, t, Normal k dflt) ->
+  walk 100 st o d r n = Ok (p, t, Normal k dflt) ->
   validate k v = Some w -> (p < length (objs st))%nat ->
   let st' := fst (fst (set_attr st o n v)) in
   st' = dict_set st p t w /\ forall g, read (100 + S g) st' o n = Ok w.
@@ -65,13 +66,12 @@ Proof. exact delegatesto_write_then_read. Qed.
 Print Assumptions delegatesto_writes_delegate_only.
 
 (* the same two theorems with CHAIN-LOCAL hypotheses ([good_chain]: along the chain of this attribute no
-   hop holds a local value, and every '*'-style hop belongs to a class with the origin's __prefix__);
-   classes elsewhere may have any prefixes, other attributes any local values *)
+   hop holds a local value); other attributes may hold any local values *)
 Theorem delegatesto_reads_target_chain_local :
-  forall st origin f cur d r m dn p t tr,
-    good_chain st origin cur dn ->
+  forall st f cur d r m dn p t tr,
+    good_chain st cur dn ->
     find_trait st cur dn = Some (Deleg d r m) ->
-    walk f st origin cur d r dn = Ok (p, t, tr) ->
+    walk f st cur d r dn = Ok (p, t, tr) ->
     (forall d' r' m', find_trait st p t <> Some (Deleg d' r' m')) /\
     forall g, read (f + S g) st cur dn = read (S g) st p t.
 Proof. exact walk_read_agree_local. Qed.
@@ -79,9 +79,9 @@ Print Assumptions delegatesto_reads_target_chain_local.
 
 Theorem delegatesto_writes_delegate_only_chain_local :
   forall st o n d r p t k dflt v w,
-  good_chain st o o n ->
+  good_chain st o n ->
   find_trait st o n = Some (Deleg d r true) ->
-  walk 100 st o o d r n = Ok (p, t, Normal k dflt) ->
+  walk 100 st o d r n = Ok (p, t, Normal k dflt) ->
   validate k v = Some w -> (p < length (objs st))%nat ->
   let st' := fst (fst (set_attr st o n v)) in
   st' = dict_set st p t w /\ forall g, read (100 + S g) st' o n = Ok w.
@@ -93,7 +93,7 @@ Print Assumptions delegatesto_writes_delegate_only_chain_local.
 Theorem prototyped_reads_until_local :
   forall st o n d r p t tr v w old,
   find_trait st o n = Some (Deleg d r false) ->
-  walk 100 st o o d r n = Ok (p, t, tr) ->
+  walk 100 st o d r n = Ok (p, t, tr) ->
   checked_by tr v = Some w -> rd st o n = Ok old -> (o < length (objs st))%nat ->
   fst (fst (set_attr st o n v)) = ltab_del (dict_set st o n w) (o, n) /\
   snd (fst (set_attr st o n v)) = Done /\
@@ -114,13 +114,15 @@ Print Assumptions prototyped_local_independent.
 
 Theorem delete_restores_link :
   forall st o n d r p t tr old,
-  (o < length (objs st))%nat -> listenable st o n = true ->
+  (o < length (objs st))%nat ->
   find_trait st o n = Some (Deleg d r false) ->
-  walk 100 st o o d r n = Ok (p, t, tr) ->
+  walk 100 st o d r n = Ok (p, t, tr) ->
   dict_get st o n = Some old ->
   let st' := fst (fst (del_attr st o n)) in
-  st' = ltab_add (dict_del st o n) (o, n) /\
-  dict_get st' o n = None /\ has_node (o, n) (ltab st') = true /\
+  st' = (if listenable st o n then ltab_add (dict_del st o n) (o, n) else dict_del st o n) /\
+  dict_get st' o n = None /\
+  (listenable st o n = true -> has_node (o, n) (ltab st') = true) /\
+  (listenable st o n = false -> ltab st' = ltab st) /\
   snd (fst (del_attr st o n)) = Done.
 Proof. exact Proofs.delete_restores_link. Qed.
 Print Assumptions delete_restores_link.
@@ -128,7 +130,7 @@ Print Assumptions delete_restores_link.
 Theorem invalid_assignment_rejected_by_target_trait :
   forall st o n d r m p t tr v,
   find_trait st o n = Some (Deleg d r m) ->
-  walk 100 st o o d r n = Ok (p, t, tr) ->
+  walk 100 st o d r n = Ok (p, t, tr) ->
   checked_by tr v = None ->
   set_attr st o n v = (st, Raised TraitError, []).
 Proof. exact invalid_rejected. Qed.
@@ -189,7 +191,8 @@ Proof.
 Qed.
 Print Assumptions forward_iff_linked_general.
 
-(* ---------- the two findings: the model, which follows the code, violates the law ---------- *)
+(* ---------- the remaining finding (the model, which follows the code, violates the law) and the two
+   repaired ones (positive examples on the former witnesses) ---------- *)
 Definition X := [0%nat]. Definition Y := [1%nat]. Definition A := [2%nat]. Definition B := [3%nat].
 Definition R := [4%nat]. Definition PARENT := [20%nat].
 Definition par : cls := mkC [12%nat] [(PARENT, Link); (X, Normal KInt (VInt 1)); ([12%nat; 3%nat], Normal KInt (VInt 5));
@@ -199,27 +202,37 @@ Definition top : cls := mkC [11%nat] [(PARENT, Link); (A, Deleg PARENT (RExplici
 Definition pool : list obj := [mkO 0 []; mkO 1 [(PARENT, VObj 0%nat)]; mkO 2 [(PARENT, VObj 1%nat)]].
 Definition st0 := init_state [par; mid; top] pool.
 
-(* '*' style at the second hop, different class prefixes: c.a = 44 is stored in p.pre_b, c.a still reads p.q_b *)
-(* the pool below does not meet [same_prefix] ... *)
-Theorem class_prefix_at_later_hop_refuted : ~ same_prefix st0.
-Proof. intros Hs. specialize (Hs 0%nat 2%nat). vm_compute in Hs. discriminate. Qed.
-Print Assumptions class_prefix_at_later_hop_refuted.
-
-(* ... and there the conclusion of delegatesto_writes_delegate_only fails *)
-Theorem class_prefix_at_later_hop_witness :
-  let st1 := fst (fst (set_attr st0 2%nat A (VInt 44))) in
-  rd st0 2%nat A = Ok (VInt 5) /\ rd st1 2%nat A = Ok (VInt 5) /\ rd st1 0%nat [11%nat; 3%nat] = Ok (VInt 44).
-Proof. vm_compute. repeat split; reflexivity. Qed.
-Print Assumptions class_prefix_at_later_hop_witness.
-
-(* the chain-local hypothesis is met in that very pool by the attribute y (y -> m.r -> p.r, no '*' hop):
-   the theorems above apply to it although the pool does not meet [same_prefix] *)
-Example good_chain_in_mixed_prefix_pool : good_chain st0 2%nat 2%nat Y.
+(* REPAIRED (2e526b5), the former witness of "class-prefix-at-later-hop": '*' style at the second hop, classes
+   with different __prefix__ - c.a = 44 is stored in p.<prefix of m>b, the attribute c.a reads from, and the
+   name built from c's own prefix is left alone.  The chain-local theorem applies in this mixed-prefix pool. *)
+Example good_chain_in_mixed_prefix_pool : good_chain st0 2%nat A /\ good_chain st0 2%nat Y.
 Proof.
-  eapply GC_hop with (p := 1%nat); [reflexivity|reflexivity|reflexivity|exact I|reflexivity|].
-  eapply GC_hop with (p := 0%nat); [reflexivity|reflexivity|reflexivity|exact I|reflexivity|].
-  apply GC_end. intros d r m. vm_compute. discriminate.
+  split.
+  - eapply GC_hop with (p := 1%nat); [reflexivity|reflexivity|reflexivity|reflexivity|].
+    eapply GC_hop with (p := 0%nat); [reflexivity|reflexivity|reflexivity|reflexivity|].
+    apply GC_end. intros d r m. vm_compute. discriminate.
+  - eapply GC_hop with (p := 1%nat); [reflexivity|reflexivity|reflexivity|reflexivity|].
+    eapply GC_hop with (p := 0%nat); [reflexivity|reflexivity|reflexivity|reflexivity|].
+    apply GC_end. intros d r m. vm_compute. discriminate.
 Qed.
+Theorem class_prefix_at_later_hop_repaired :
+  let st1 := fst (fst (set_attr st0 2%nat A (VInt 44))) in
+  walk 100 st0 2%nat PARENT (RExplicit B) A = Ok (0%nat, [12%nat; 3%nat], Normal KInt (VInt 5)) /\
+  st1 = dict_set st0 0%nat [12%nat; 3%nat] (VInt 44) /\
+  (forall g, read (100 + S g) st1 2%nat A = Ok (VInt 44)) /\
+  rd st0 2%nat A = Ok (VInt 5) /\ rd st1 0%nat [11%nat; 3%nat] = Ok (VInt 6).
+Proof.
+  intros st1. split; [vm_compute; reflexivity|].
+  destruct (delegatesto_writes_delegate_only_chain_local st0 2%nat A PARENT (RExplicit B) 0%nat [12%nat; 3%nat]
+              KInt (VInt 5) (VInt 44) (VInt 44)) as [H1 H2].
+  - exact (proj1 good_chain_in_mixed_prefix_pool).
+  - reflexivity.
+  - vm_compute. reflexivity.
+  - reflexivity.
+  - vm_compute. repeat constructor.
+  - split; [exact H1|]. split; [exact H2|]. vm_compute. split; reflexivity.
+Qed.
+Print Assumptions class_prefix_at_later_hop_repaired.
 
 (* DelegatesTo over a PrototypedFrom attribute with a local value: c.y = 12 lands in p.r, c.y reads 30 *)
 Theorem through_local_witness :
@@ -229,25 +242,26 @@ Theorem through_local_witness :
 Proof. vm_compute. repeat split; reflexivity. Qed.
 Print Assumptions through_local_witness.
 
-(* Third finding: deleting the local value of a PrototypedFrom(..., listenable=False) attribute removes
-   the value and notifies, then raises KeyError (no __listener_traits__ entry); without a local value
-   it raises as well.  [delete_restores_link] carries the hypothesis [listenable st o n = true]. *)
+(* REPAIRED (fcaa594), the former witness of "not-listenable": deleting the local value of a
+   PrototypedFrom(..., listenable=False) attribute is an ordinary delete - value gone, the inherited value
+   notified, no forwarder attached, no exception; without a local value nothing happens. *)
 Definition child_nl : cls := mkC [11%nat] [(PARENT, Link); (X, Deleg PARENT RSame false)] [X].
 Definition st_nl := init_state [par; child_nl] [mkO 0 []; mkO 1 [(PARENT, VObj 0%nat)]].
-Theorem del_not_listenable_refuted :
+Theorem del_not_listenable_repaired :
   listenable st_nl 1%nat X = false /\
   let st1 := fst (fst (set_attr st_nl 1%nat X (VInt 9))) in
   rd st1 1%nat X = Ok (VInt 9) /\
-  snd (fst (del_attr st1 1%nat X)) = Raised KeyError /\
+  snd (fst (del_attr st1 1%nat X)) = Done /\
   rd (fst (fst (del_attr st1 1%nat X))) 1%nat X = Ok (VInt 1) /\
   snd (del_attr st1 1%nat X) = [(1%nat, X, VInt 1)] /\
-  snd (fst (del_attr st_nl 1%nat X)) = Raised KeyError.
+  ltab (fst (fst (del_attr st1 1%nat X))) = [] /\
+  del_attr st_nl 1%nat X = (st_nl, Done, []).
 Proof. vm_compute. repeat split; reflexivity. Qed.
-Print Assumptions del_not_listenable_refuted.
+Print Assumptions del_not_listenable_repaired.
 
 (* Non-vacuity of forward_iff_linked_general: a pool with a listenable=False attribute and an object built
    with a constructor keyword (a = 5); its hypotheses are decided by the sound checkers of Invariants2.v;
-   the history deletes both kinds of local value (the listenable=False one raises KeyError). *)
+   the history deletes both kinds of local value. *)
 Definition child_k : cls :=
   mkC [11%nat] [(PARENT, Link); (X, Deleg PARENT RSame false); (A, Deleg PARENT (RExplicit X) false);
                 (Y, Deleg PARENT (RExplicit X) true)] [X].
@@ -258,7 +272,7 @@ Example general_invariant_nontrivial :
   wf_classes [par; child_k]
   /\ ltab (init_state_k [par; child_k] pool_k) = [(1%nat, Y)]
   /\ map (fun p => ob_out (snd p)) (run (init_state_k [par; child_k] pool_k) ops)
-     = [Done; Done; Raised KeyError; Done; Done]
+     = [Done; Done; Done; Done; Done]
   /\ ltab st = [(1%nat, Y); (1%nat, A)]
   /\ (has_node (1%nat, A) (ltab st) = true <->
       (deferring st 1%nat A /\ dict_get st 1%nat A = None /\ listenable st 1%nat A = true)).
@@ -285,5 +299,5 @@ Example history_nontrivial :
   map (fun p => ob_out (snd p)) tr = [Done; Done; Done; Done; Done; Raised TraitError; Raised TraitError]
   /\ map (fun p => length (ob_events (snd p))) tr = [3; 1; 2; 1; 3; 0; 0]%nat
   /\ law_hist (mkG (classes st0') (map o_cls (objs st0'))) 0 [] (mkObs Done [] (snapshot st0') (locals st0')) tr = []
-  /\ walk 100 st0' 2%nat 2%nat PARENT (RExplicit B) A = Ok (0%nat, [12%nat; 3%nat], Normal KInt (VInt 5)).
+  /\ walk 100 st0' 2%nat PARENT (RExplicit B) A = Ok (0%nat, [12%nat; 3%nat], Normal KInt (VInt 5)).
 Proof. vm_compute. repeat split; reflexivity. Qed.
